@@ -19,3 +19,10 @@ Example C06_hostile_headers :
   from_cbor_alloc [xc0] = (None, 0) /\ from_cbor_alloc [xba; xff; xff; xff; xff] = (None, 0) /\
   from_cbor_alloc [xba; x80; x00; x00; x00; x01; x00] = (None, 0).
 Proof. exact hostile_headers. Qed.
+
+(** what the reader returns is bounded by what it was given, whatever lengths the input declares *)
+From PSA Require Import EmbeddedBound.
+Theorem C06_reader_output_bounded : forall (data : bytes) (m : fmap), from_cbor data = Some m ->
+  (2 * length m <= length data /\ total_raw m <= length data)%nat.
+Proof. exact from_cbor_output_bounded. Qed.
+Print Assumptions C06_reader_output_bounded.
